@@ -143,7 +143,8 @@ def gen_drop_scenario(rng, maxlen=12):
     tail = ["L"]
     if rng.random() < 0.5:
         tail += [rng.choice(["W %d %s" % (rng.choice([5, 6, 8]), jid), "I %s" % jid, "G", "X", "P 4 -", "Y %s" % jid,
-                             "K 7 %s" % jid, "F 7 %s 8 -" % jid, "D %d" % rng.choice(waiters)]), "L"]
+                             "K 7 %s" % jid, "F 7 %s 8 -" % jid, "D %d" % rng.choice(waiters)]
+                            + (["A %d 0 %s -" % (ch, name)] * 3 if named else [])), "L"]
     ops = core + tail
     noise = ["L", "D %d" % rng.choice(waiters), "G", "U 4000", "T 6", "P %d -" % rng.choice([1, 2, 3, 4]), "A %d 0 - -" % ch,
              "Y %s" % jid, "W %d %s" % (rng.choice([5, 6, 8]), jid), "C 1", "X", "I %s" % jid]
